@@ -118,8 +118,12 @@ def run(ck):
         lines_eval = [int(o[1]) for o in sim0[0].ops if o[1] < len(c.lines)]
         target = rng.choice(lines_eval) if lines_eval else None
         newvals = np.array(values, dtype=np.uint8)[nrng.integers(0, len(values), size=sims)]
-        desc.update({'target': target, 'newvals': newvals.tolist()})
+        used = i % 3 == 1       # every simulator of this case has already simulated another batch
+        desc.update({'target': target, 'newvals': newvals.tolist(), 'used_simulator': used})
+        lc.WARM['on'] = used
         what, err = sk.safe(check_case, c, m, stim, target, newvals)
+        lc.WARM['on'] = False
+        ck.count(int(used), 'used-simulator rounds')
         ck.count(sims, f'm={m}')
         ck.nontrivial(sk.circuit_fingerprint(c) + (m, target))
         if err is not None:
@@ -158,6 +162,8 @@ def run(ck):
 def replay(rp):
     inp = rp['input']
     c = cg.from_description(inp['circuit'])
+    lc.WARM['on'] = bool(inp.get('used_simulator'))
     what, err = sk.safe(check_case, c, inp['m'], np.array(inp['stimulus'], dtype=np.uint8), inp.get('target'),
                         np.array(inp.get('newvals', []), dtype=np.uint8))
+    lc.WARM['on'] = False
     return err is not None or what is not None
